@@ -188,8 +188,8 @@ Section Ext.
   Lemma good_binop op s0 s e a b : ext s0 s -> good s0 (binop_value op s e a b).
   Proof.
     intros Hs. unfold binop_value; cbv zeta. destruct op; repeat gstep.
-    match goal with H : alloc_table _ _ = _ |- _ => eapply ext_alloc_table; [exact H|] end.
-    repeat match goal with |- ext _ (match ?y with _ => _ end) => destruct y end; ext_tac.
+    all: try (match goal with H : alloc_table _ _ = _ |- _ => eapply ext_alloc_table; [exact H|] end;
+              repeat match goal with |- ext _ (match ?y with _ => _ end) => destruct y end; ext_tac).
   Qed.
 
   Lemma good_call_body s0 fi params body up args s :
